@@ -13,4 +13,30 @@ def dictGet {κ} [BEq κ] (d : List (κ × Nat)) (k : κ) : Option Nat := (d.fin
 /-- `s.add(x)` on a Python set kept as the list of its elements in insertion order -/
 def setAdd (s : List Nat) (x : Nat) : List Nat := if s.contains x then s else s ++ [x]
 
+
+/-! caches of `_compute_connectivity` -/
+abbrev HEDict := List ((Nat × Nat) × List (Option Nat))   -- `_half_edges`: (u,v) ↦ [corner, previous, next, opposite, face, i, j]
+abbrev CnDict := List (Nat × (Nat × Nat))                 -- `_Cn2he`
+abbrev VFDict := List ((Nat × Nat) × Nat)                 -- `_adjVF2Cn`
+abbrev FDict := List (Nat × Nat)                          -- `_adjF2Cn`
+abbrev V2Cn := List (List Nat)                            -- `_adjV2Cn`: vertex ↦ its corners (a set filled in increasing order)
+
+def dictHas {κ ν} [BEq κ] (d : List (κ × ν)) (k : κ) : Bool := d.any fun e => e.1 == k
+def dictFind {κ ν} [BEq κ] (d : List (κ × ν)) (k : κ) : Option ν := (d.find? fun e => e.1 == k).map (·.2)
+/-- `d[k]` where the source guarantees the key (it was inserted by the loop just above) -/
+def dictGetD {κ} [BEq κ] (d : List (κ × Nat)) (k : κ) : Nat := (dictGet d k).getD 0
+/-- `self._half_edges.get(k, [None])[0]` -/
+def heGet0 (d : HEDict) (k : Nat × Nat) : Option Nat := (dictFind d k).bind fun e => e.getD 0 none
+/-- `self._half_edges[k][i]` (a missing key is not modelled: the key comes out of `_Cn2he` / a membership test) -/
+def heField (d : HEDict) (k : Nat × Nat) (i : Nat) : Option Nat := (dictFind d k).bind fun e => e.getD i none
+/-- `self._half_edges[k][4:]` unpacked as a triple -/
+def heInds (d : HEDict) (k : Nat × Nat) : Option Nat × Option Nat × Option Nat := (heField d k 4, heField d k 5, heField d k 6)
+/-- `self._half_edges[k][3] = x` (in-place write into the entry list) -/
+def heSetOpp (d : HEDict) (k : Nat × Nat) (x : Option Nat) : HEDict :=
+  d.map fun e => if e.1 == k then (e.1, e.2.set 3 x) else e
+def v2cnGet (t : V2Cn) (v : Nat) : List Nat := t.getD v []
+def v2cnSet (t : V2Cn) (v : Nat) (l : List Nat) : V2Cn := t.set v l
+/-- `self._adjV2Cn[v].add(c)` -/
+def v2cnAdd (t : V2Cn) (v c : Nat) : V2Cn := t.set v (setAdd (t.getD v []) c)
+
 end Mouette.SurfSource
